@@ -420,4 +420,47 @@ theorem delete_wf (t : Node) :
       · have := countNN_set cs i (delete (cs[i]?.getD .nil) r).2 (by omega)
         split at this <;> split at this <;> omega
 
+
+/-- on a minimal-form trie and a terminated key, `tryGet` returns the abstract content -/
+theorem get_eq_content (t : Node) : ∀ k, WFRoot t → ValidKey k → get t k = content t k := by
+  induction t using Node.induct with
+  | hnil => intro k _ _; simp
+  | hval b => intro k h; rcases h with h | h <;> simp [WF] at h
+  | hshort kk v ih =>
+    intro k hwf hk
+    have hwf : WF (.short kk v) := hwf.resolve_left (by simp)
+    rw [get_short, content_short]
+    by_cases hp : kk <+: k
+    · simp only [hp, if_true]
+      rcases (WF_short_iff kk v).mp hwf with ⟨b, rfl, hkk, hb⟩ | ⟨cs, rfl, hne, hnib, hfull⟩
+      · have heq : kk = k := hk.eq_of_prefix hkk hp
+        subst heq; simp [content_value]
+      · exact ih _ (Or.inr hfull) (hk.drop_of_nibs hp hnib)
+    · simp [hp]
+  | hfull cs ih =>
+    intro k hwf hk
+    have hwf : WF (.full cs) := hwf.resolve_left (by simp)
+    obtain ⟨hlen, hslots, hcnt⟩ := (WF_full_iff cs).mp hwf
+    obtain ⟨i, r, rfl⟩ : ∃ x r, k = x :: r := by
+      cases k with
+      | nil => exact absurd rfl hk.ne_nil
+      | cons x r => exact ⟨x, r, rfl⟩
+    have hi : i < 17 := by
+      have := hk.le16 i (by simp); omega
+    rw [get_full_cons, content_full_cons]
+    rcases (validKey_cons i r).mp hk with ⟨rfl, rfl⟩ | ⟨hj16, hr⟩
+    · rcases hslots 16 (by omega) with h | h
+      · rw [h]; simp
+      · simp only [if_true] at h
+        obtain ⟨b, hb, _⟩ := h
+        rw [hb]; simp [content_value]
+    · have hroot : WFRoot (cs[i]?.getD .nil) := by
+        rcases hslots i (by omega) with h | h
+        · exact Or.inl h
+        · have : ¬ i = 16 := by omega
+          simp only [this, if_false] at h; exact Or.inr h
+      rcases getD_mem_or_nil cs i with h0 | hmem
+      · rw [h0]; simp
+      · exact ih _ hmem r hroot hr
+
 end Rangers.Trie
